@@ -38,6 +38,7 @@ CONSTANTS
   Labs,          \* label variants
   Cmts,          \* rule-level control comment variants, "none" = no comment
   Pads,          \* filler in front of a rule: 0 nothing, 1 blank line, 2 plain comment line
+  Exts,          \* further fields of alerting rules: "x0" none, "x1" `for: 5m`, "x2" an annotations map
   MaxRules,      \* rules per file
   MaxForkRules,  \* rules in the fork tree
   MaxCommits,    \* branch commits
@@ -55,7 +56,8 @@ Paths == {PathOrder[i] : i \in 1..Len(PathOrder)}
 NoPath == ""          \* git.Path.Name == ""
 Fresh  == "new"       \* identity of a file that has no version at the fork point
 
-Rule == [kind : Kinds, name : Names, body : Bodies, lab : Labs, cmt : Cmts, pad : Pads]
+Rule == {r \in [kind : Kinds, name : Names, body : Bodies, lab : Labs, cmt : Cmts, pad : Pads, ext : Exts] :
+           r.kind = "rec" => r.ext = "x0"}
 NewRules == {r \in Rule : r.cmt = "none" /\ r.pad = 0}
 AbsentFile == [present |-> FALSE, fdis |-> FALSE, rules |-> <<>>]
 EmptyFile  == [present |-> TRUE, fdis |-> FALSE, rules |-> <<>>]
@@ -87,12 +89,13 @@ RECURSIVE Flatten(_)
 Flatten(ss) == IF ss = <<>> THEN <<>> ELSE Head(ss) \o Flatten(Tail(ss))
 
 \* What the parser keeps of a rule: type, name, expression, labels, rule-level control comments.
-Content(r) == [kind |-> r.kind, name |-> r.name, body |-> r.body, lab |-> r.lab, cmt |-> r.cmt]
+Content(r) == [kind |-> r.kind, name |-> r.name, body |-> r.body, lab |-> r.lab, cmt |-> r.cmt, ext |-> r.ext]
 
 \* Layout (gitrepo.Render): [file/disable line] groups: / - name: g / rules: / then per rule
-\* [pad line] [control comment line] and the rule lines (name, expr, labels:, one line per label; l3 has two labels).
+\* [pad line] [control comment line] and the rule lines (name, expr, [for], labels:, one line per label - l3 has two
+\* labels -, [annotations: and one annotation]).
 PreLen(r)  == (IF r.pad = 0 THEN 0 ELSE 1) + (IF r.cmt = "none" THEN 0 ELSE 1)
-RuleLen(r) == IF r.lab = "l3" THEN 5 ELSE 4
+RuleLen(r) == (IF r.lab = "l3" THEN 5 ELSE 4) + (CASE r.ext = "x1" -> 1 [] r.ext = "x2" -> 2 [] OTHER -> 0)
 RECURSIVE LinesBefore(_, _)
 LinesBefore(rs, k) == IF k = 0 THEN 0 ELSE PreLen(rs[k]) + RuleLen(rs[k]) + LinesBefore(rs, k - 1)
 FirstLine(f, k) == (IF f.fdis THEN 1 ELSE 0) + 3 + LinesBefore(f.rules, k - 1) + PreLen(f.rules[k]) + 1
@@ -131,7 +134,7 @@ Identical(a, b) == a.rule = b.rule            \* Rule.IsIdentical
 EntryIdentical(b, a) == b.fdis = a.fdis       \* isEntryIdentical (DisabledChecks)
 SameName(a, b) == a.rule.kind = b.rule.kind /\ a.rule.name = b.rule.name
 
-NoEntry == [path |-> NoPath, rule |-> [kind |-> "", name |-> "", body |-> "", lab |-> "", cmt |-> ""],
+NoEntry == [path |-> NoPath, rule |-> [kind |-> "", name |-> "", body |-> "", lab |-> "", cmt |-> "", ext |-> ""],
             first |-> 0, last |-> 0, fdis |-> FALSE, state |-> "unknown"]
 MIdent(b, a) == [hasBefore |-> TRUE, hasAfter |-> TRUE, before |-> b, after |-> a,
                  isIdentical |-> EntryIdentical(b, a), wasMoved |-> a.path # b.path]
@@ -422,7 +425,8 @@ Has(op) == op \in OpSet
 ExprVariants(r)  == {[r EXCEPT !.body = b] : b \in Bodies \ {r.body}}
 LabelVariants(r) == {[r EXCEPT !.lab = x] : x \in Labs \ {r.lab}}
 NameVariants(r)  == {[r EXCEPT !.name = x] : x \in Names \ {r.name}}
-KindVariants(r)  == {[r EXCEPT !.kind = x] : x \in Kinds \ {r.kind}}
+KindVariants(r)  == {[r EXCEPT !.kind = x, !.ext = IF x = "rec" THEN "x0" ELSE @] : x \in Kinds \ {r.kind}}
+ExtVariants(r)   == IF r.kind = "alr" THEN {[r EXCEPT !.ext = x] : x \in Exts \ {r.ext}} ELSE {}
 CmtVariants(r)   == {[r EXCEPT !.cmt = x] : x \in Cmts \ {r.cmt}}
 NoteVariants(r)  == IF 2 \notin Pads THEN {} ELSE IF r.pad = 2 THEN {[r EXCEPT !.pad = 0]}
                     ELSE IF r.pad = 0 THEN {[r EXCEPT !.pad = 2]} ELSE {}
@@ -449,7 +453,7 @@ Candidates ==
      RuleEdits("ModifyExpr", ExprVariants) \cup RuleEdits("ModifyLabels", LabelVariants)
   \cup RuleEdits("RenameRule", NameVariants) \cup RuleEdits("ChangeKind", KindVariants)
   \cup RuleEdits("CommentOnlyEdit", CmtVariants) \cup RuleEdits("PlainCommentEdit", NoteVariants)
-  \cup RuleEdits("WhitespaceEdit", SpaceVariants)
+  \cup RuleEdits("WhitespaceEdit", SpaceVariants) \cup RuleEdits("ModifyAlertFields", ExtVariants)
   \cup (IF ~Has("AddRule") THEN {} ELSE
         UNION {UNION {{Mk("AddRule", "M", p, p, WithRules(tree[p], InsertAt(tree[p].rules, k, r))) : r \in NewRules}
                       : k \in 1..(Len(tree[p].rules) + 1)} : p \in {q \in Present : Len(tree[q].rules) < MaxRules}})
